@@ -1,8 +1,15 @@
 import CpModel.PipelineProto
+import CpModel.WsgiBoundaryProto
 /-!
-  Driver for C01 (exactly one well-formed response; errors contained).  Same step function as the C09
-  driver: one fault plan per line in, one canonical result line out (journal incl. `start_response`
-  calls, kind of the response entity, escaped?, last request's show_tracebacks); the protocol is
-  documented in `CpModel/PipelineProto.lean`.
+  Driver for C01 (exactly one well-formed response; errors contained).  Lines starting with `B` / `R` are
+  plans of the WSGI-boundary models (`CpModel/WsgiBoundaryProto.lean`: body iterators that misbehave,
+  InternalRedirect chains with query strings); every other line is a fault plan, handled by the same step
+  function as in the C09 driver (`CpModel/PipelineProto.lean`).
 -/
-def main : IO Unit := CpModel.Proto.runDriver CpModel.PipelineProto.step
+def step (line : String) : String :=
+  match CpModel.Proto.fields line with
+  | "B" :: _ => CpModel.WsgiBoundaryProto.step line
+  | "R" :: _ => CpModel.WsgiBoundaryProto.step line
+  | _ => CpModel.PipelineProto.step line
+
+def main : IO Unit := CpModel.Proto.runDriver step
